@@ -94,7 +94,7 @@ Stream(typ, crypt, d, pid, n) == [k |-> "stream", typ |-> typ, crypt |-> crypt, 
 ObjStm(pid, n, mem) == [k |-> "stream", typ |-> "ObjStm", crypt |-> NoCrypt, d |-> <<>>, pl |-> Plain(pid, n), mem |-> mem]
 XRefStm(pid, n) == Stream("XRef", NoCrypt, << Arr(<< Str("i0", 16), Str("i1", 16) >>) >>, pid, n)
 Other == [k |-> "other"]
-Cr(f, n) == [f |-> f, n |-> n]
+Cr(f, n) == [f |-> f, n |-> n, ind |-> FALSE]
 
 DocOf(d) ==
     CASE d = "D1" -> << Dict("-", << Str("s1", 20), Arr(<< Str("s2", 5), Dict("-", << Str("s3", 16) >>) >>), Str("e", 0), Other >>),
@@ -115,6 +115,8 @@ DocOf(d) ==
                                       Stream("-", NoCrypt, << Str("s12", 18) >>, "t9", 25),
                                       ObjStm("c1", 60, <<1, 2>>),
                                       XRefStm("x1", 42) >>)
+      \* a Crypt override whose decode parameters are the indirect object that follows the stream
+      [] d = "D7" -> << Stream("-", [f |-> "name", n |-> "F2", ind |-> TRUE], <<>>, "t11", 34), Other >>
       \* loaded from a file with an xref stream, no object streams
       [] d = "D6" -> << Dict("-", << Str("m4", 22) >>),
                         Stream("-", NoCrypt, << Str("s13", 16) >>, "t10", 19),
@@ -138,7 +140,8 @@ PairsFull  == PairsQuick \cup {<<"E", "E">>, <<"L1", "B">>, <<"A", "L1">>, <<"A"
 AttemptsQuick == {"W", "E"}
 AttemptsFull  == {"W", "E", "L2", "S32", "H2", "T127"}   \* (offers with characters PDFDocEncoding lacks: see Toks)
 AllKnown == {"owner.R234.key", "streamdict.string", "pw.gt127.R56", "crypt.dparray", "metadata.nonstream", "restored.objstm.member",
-             "pw.unencodable.R234", "crypt.belowV4", "metadata.streamdict"}
+             "pw.unencodable.R234", "crypt.belowV4", "metadata.streamdict",
+             "objstm.member.resurrected", "crypt.indirect"}
 \* documents in the state a loader leaves them in; the caller may edit these objects of them (each once) while unencrypted
 FileDocs == {"D5", "D6"}
 EditPos(d) == IF d = "D5" THEN {1, 3} ELSE IF d = "D6" THEN {1} ELSE {}
@@ -185,10 +188,12 @@ Edited(o) == CASE o.k = "str" -> o.pl.ed > 0
                [] o.k \in {"arr", "dict"} -> \E i \in DOMAIN o.v : Edited(o.v[i])
                [] o.k = "stream" -> o.pl.ed > 0
                [] OTHER -> FALSE
+\* the caller deletes an object the loader unpacked from an object stream (D5: object 2), once
+DeleteH    == cfg.dn = "D5" /\ doc[2].k # "gone" /\ Delete(2) /\ Rec
 RekeyH     == cfg.alt.V # 0 /\ Rekey(FullCfg(cfg.alt, cfg.user, cfg.owner, cfg.dn, cfg.nobj0, NoAlt, cfg.c0, cfg.alt0)) /\ Rec
 EditH      == \E pos \in EditPos(cfg.dn) : ~Edited(doc[pos]) /\ Edit(pos) /\ Rec
 
-Next == MakeStateH \/ EncryptH \/ SaveH \/ LoadH \/ DecryptH \/ AuthUserH \/ AuthOwnerH \/ AuthH \/ EditH \/ RekeyH
+Next == MakeStateH \/ EncryptH \/ SaveH \/ LoadH \/ DecryptH \/ AuthUserH \/ AuthOwnerH \/ AuthH \/ EditH \/ RekeyH \/ DeleteH
 
 Spec == Init /\ [][Next]_vars
 
@@ -202,7 +207,7 @@ OnlyKnown == verdict.ok \/ verdict.tags \subseteq KnownTags
 
 \* the judge's idea of the document agrees with the impl-shaped state where both are defined
 JudgeTracks ==
-    /\ j.mem = "plain" => trailerEncrypt = 0 /\ \A i \in DOMAIN Items(doc) : Items(doc)[i].eq
+    /\ j.mem = "plain" => trailerEncrypt = 0 /\ \A i \in DOMAIN Items(doc) : Items(doc)[i].eq \/ Items(doc)[i].gone
     /\ j.mem = "enc" => trailerEncrypt # 0
     /\ j.disk = "none" <=> disk = NoDisk
 
